@@ -77,6 +77,7 @@ pub enum G {
     Vcs,
     LicenseName,
     LicenseNamed,
+    LicenseText,
     Forwarded,
     Applied,
     Origin,
@@ -610,6 +611,20 @@ pub fn rows() -> Vec<Row> {
         |a| Some(a.l().join("\n")),
         |r| Some(format!("{:?}", debian_copyright::License::from_str(r).unwrap()))
     ));
+    r.push(row!(
+        CF,
+        "copyright::FilesParagraph",
+        "set_license(text)",
+        "License",
+        G::LicenseText,
+        false,
+        |v, a| v.set_license(&debian_copyright::License::Text(a.l().join("\n"))),
+        |v| v.license().map(|l| format!("{:?}", l)),
+        |a| Some(format!("{:?}", debian_copyright::License::Text(a.l().join("\n")))),
+        // a licence without short name: nothing on the field line, the text on the following lines
+        |a| Some(a.l().join("\n")),
+        |r| Some(format!("{:?}", debian_copyright::License::from_str(r).unwrap()))
+    ));
     // ---- DEP-3
     r.push(row!(
         D3,
@@ -1005,6 +1020,7 @@ fn gen_arg(rng: &mut Rng, g: G, seq: usize) -> Arg {
             Arg::S(s)
         }
         G::LicenseName => Arg::S(rng.s(&["GPL-2+", "MIT", "Apache-2.0", "GPL-2+ or MIT"]).to_string()),
+        G::LicenseText => Arg::L(vec![format!("text{seq}"), ".".to_string(), "more".to_string()]),
         G::LicenseNamed => Arg::L(vec![rng.s(&["GPL-2+", "MIT"]).to_string(), format!("text{seq}"), ".".to_string(), "more".to_string()]),
         G::Forwarded => Arg::S(rng.s(&["no", "not-needed", "https://example.com/bug/1"]).to_string()),
         G::Applied => Arg::S(format!("{}{seq}", rng.s(&["commit:deadbeef", "1.2.", "https://x/y"]))),
@@ -1450,10 +1466,8 @@ impl Scenario for C15 {
                         let after = doc_text(&l);
                         obs.event(&after);
                         // getter through every live view of this paragraph, and through a fresh one
-                        let want = match (rowdef.merge, &merged_value) {
-                            (Some(_), Some(mv)) => (rowdef.decode)(mv),
-                            _ => (rowdef.expect)(arg),
-                        };
+                        let _ = &merged_value;
+                        let want = (rowdef.expect)(arg);
                         let want = if rowdef.gen == G::Bool && rowdef.clears && !arg.b() { Some("false".to_string()) } else { want };
                         let fresh = make_view(&l, &c.kind, para);
                         let mut all: Vec<(String, &AnyView)> = l.views.iter().filter(|(_, (p, _))| *p == para).map(|(id, (_, vw))| (format!("view {id}"), vw)).collect();
@@ -1464,6 +1478,14 @@ impl Scenario for C15 {
                             let got = (rowdef.get)(vw);
                             if got != want {
                                 return Err(v("getter-after-setter", row, &pre, format!("after {row}({:?}) through view {view}: getter through {name} returns {:?}, expected {:?}; text {:?}", arg, got, want, after)));
+                            }
+                        }
+                        // Source::vcs(): the first Vcs-* field other than Vcs-Browser, read as that system's location
+                        if let Some((_, AnyView::CS(src))) = l.views.get(view) {
+                            let want = l.model[para].iter().find(|e| e.0.starts_with("Vcs-") && e.0 != "Vcs-Browser").and_then(|e| debian_control::vcs::Vcs::from_field(&e.0[4..], &e.1).ok());
+                            let got = src.vcs();
+                            if format!("{:?}", got) != format!("{:?}", want) {
+                                return Err(v("getter-after-setter", "control::Source.vcs", &pre, format!("vcs() = {:?}, the paragraph's first Vcs-* field reads as {:?}", got, want)));
                             }
                         }
                         // what the text says (strict re-read == live content == list model)
